@@ -376,10 +376,13 @@ example : centroid (fun _ _ => 1)
 /-- [T] witness that the hypothesis of `centroid_translate_partial` (final weight ≠ 0) cannot be
 dropped *in the model*: two polygons, the first with a hole larger than its shell (net weight −3),
 the second of area 3; the accumulated weight is 0, the model's `x / 0 = 0` stays at the origin when
-the geometry moves. The real code computes `0.0 / 0.0 = NaN` there (for both the geometry and its
-translate), so the property "the centroid moves with the geometry" is void for such inputs, not
-violated; with `len` positive on distinct points a zero final weight needs holes that outweigh
-their shells (see `centroid_translate` below). -/
+the geometry moves. The real code divides the accumulated sum by the zero weight there: run on this
+input and on its translate (`C06.cen MPG 2 2 5 0 0 1 0 1 1 0 1 0 0 5 0 0 2 0 2 2 0 2 0 0 1 5 0 0 3 0 3 1 0 1 0 0`
+and the same moved by (1,0)) it returns `Some((+inf, -inf))` both times (`NaN` where the accumulated
+coordinate is 0 too), so the property "the centroid moves with the geometry" is void for such inputs,
+not violated (the driver answers `SKIP zero-total-weight`); with `len` positive on distinct points a
+zero final weight needs holes that outweigh their shells — not a valid polygon — so this is a limit of the
+statement, not a defect of geo (see `centroid_translate` below for the statement on the domain `WF`). -/
 theorem centroid_translate_needs_weight :
     centroid (fun _ _ => 1) (mapG (· + (⟨1, 0⟩ : Pt)) (.multiPolygon
         [⟨[⟨0, 0⟩, ⟨1, 0⟩, ⟨1, 1⟩, ⟨0, 1⟩, ⟨0, 0⟩], [[⟨0, 0⟩, ⟨2, 0⟩, ⟨2, 2⟩, ⟨0, 2⟩, ⟨0, 0⟩]]⟩,
